@@ -30,7 +30,7 @@ YOUR TASK: produce TWO independent, different source changes (call them benA and
 Deliver, in @OUT@/@ID@.out/:
   - benA.diff / benB.diff: unified diffs produced by `git diff` in the worktree (relative to the pinned HEAD, applying with `git apply` at the repository root). Each diff must stand alone.
   - notes.md: for each change: what it rewrites, the argument why behaviour is preserved for every input (including the corner cases above), and the exact commands you ran with their outcomes (the full existing test suite passes).
-Procedure: for each change, start from a clean worktree (`git checkout -- . && git clean -fd -e target`), apply, run the full test suite. Finally leave the worktree clean (only target/ may remain). The tree already contains two maintainer fixes relative to the release (batch chunk loop, nonce() seed copy) and a cfg-guarded hook (`#[cfg(bpp_verif)]`, inactive in normal builds): keep those as they are (you may move the hook call along with the code around it, but do not delete it). Reply with a short summary of the two changes when done.
+Procedure: for each change, start from a clean worktree (`git checkout -- . && git clean -fd -e target`), apply, run the full test suite. Finally leave the worktree clean (only target/ may remain). The tree already contains three maintainer fixes relative to the release (batch chunk loop, nonce() seed copy, generator-count check in the batch consistency function) and a cfg-guarded hook (`#[cfg(bpp_verif)]`, inactive in normal builds): keep those as they are (you may move the hook call along with the code around it, but do not delete it). Reply with a short summary of the two changes when done.
 """
 here = os.path.dirname(os.path.abspath(__file__))
 for l in open(os.path.join(here, '..', 'properties.jsonl')):
